@@ -5,32 +5,46 @@
      pkg/shell-operator/operator.go:163-191              : task created per BindingExecutionInfo
    and of the only thing used of gopkg.in/robfig/cron.v2 while the scheduler is not
    running: AddFunc appends an entry with id ++nextID (or fails on an unparsable spec and
-   returns id 0), Remove(id) drops the entries with that id, Entries() lists them.
+   returns id 0), Remove(id) drops the entries with that id, Entries() lists them; running
+   an entry's job sends the crontab string captured by the closure of Add on ScheduleCh.
+
+   A crontab is the Go string itself, byte for byte ([ct] = list of bytes): the manager's
+   map Entries is keyed by it, the job's closure sends it, and the bindings controller
+   compares a firing with the crontab of a link by [==].  Two spellings of one schedule
+   ("* * * * *", "*  * * * *", " * * * * *", a tab between fields, ...) are therefore
+   DIFFERENT crontabs everywhere in this model, as they are in the code.
+   The firing path: a cron entry's job runs (OTick / OTickAll) -> the string it sends ->
+   hook.Manager.HandleScheduleEvent (hook_manager.go:304-316): every hook whose controller
+   says CanHandleEvent gets HandleEvent -> one task per BindingExecutionInfo.
    No proofs here. *)
 From Verif Require Import Common.
 
+(* a crontab string; identity = equality of byte strings (Go map key, Go ==) *)
+Definition ct := bytes.
+Definition ct_eqb : ct -> ct -> bool := bytes_eqb.
+
 (* ------------------------------------------------------------------ scheduleManager *)
 
-(* crontabs and ids are numbered by the harness.  [valid c] = cron.Parse accepts the
-   crontab string. *)
+(* ids are numbered by the harness, crontabs are the strings.  [valid c] = cron.Parse
+   accepts the crontab string c. *)
 (* sm.Entries : map[string]CronEntry{EntryID, Ids map[string]bool} as a partial function;
    the id set as a duplicate-free list (insertion order is not observable) *)
 Record sm := mkSm {
-  entries : N -> option (N * list N);
-  cron    : list (N * N);             (* cron.entries: (EntryID, crontab the job sends) *)
+  entries : ct -> option (N * list N);
+  cron    : list (N * ct);            (* cron.entries: (EntryID, crontab string the job sends) *)
   next    : N                         (* cron.nextID *)
 }.
 Definition sm_init : sm := mkSm (fun _ => None) [] 0%N.
 
-Definition upd {V} (k : N) (v : V) (f : N -> V) : N -> V :=
-  fun k' => if N.eqb k' k then v else f k'.
+Definition upd {V} (k : ct) (v : V) (f : ct -> V) : ct -> V :=
+  fun k' => if ct_eqb k' k then v else f k'.
 Definition set_add (i : N) (ids : list N) : list N :=        (* Ids[id] = true *)
   if mem_N i ids then ids else ids ++ [i].
 Definition set_del (i : N) (ids : list N) : list N :=        (* delete(Ids, id) *)
   filter (fun x => negb (N.eqb x i)) ids.
 
 (* Add, lines 61-90 *)
-Definition sm_add (valid : N -> bool) (s : sm) (c i : N) : sm :=
+Definition sm_add (valid : ct -> bool) (s : sm) (c : ct) (i : N) : sm :=
   match entries s c with                                     (* cronEntry, hasCronEntry := sm.Entries[crontab] *)
   | None =>
       (* entryId, _ := sm.cron.AddFunc(...): the error is dropped *)
@@ -53,7 +67,7 @@ Definition sm_add (valid : N -> bool) (s : sm) (c i : N) : sm :=
   end.
 
 (* Remove, lines 92-116 *)
-Definition sm_remove (s : sm) (c i : N) : sm :=
+Definition sm_remove (s : sm) (c : ct) (i : N) : sm :=
   match entries s c with
   | None => s                                                (* nothing to remove *)
   | Some (eid, ids) =>
@@ -70,26 +84,26 @@ Definition sm_remove (s : sm) (c i : N) : sm :=
         end
   end.
 
-Inductive smop := Add (c i : N) | Remove (c i : N).
-Definition sm_step (valid : N -> bool) (s : sm) (o : smop) : sm :=
+Inductive smop := Add (c : ct) (i : N) | Remove (c : ct) (i : N).
+Definition sm_step (valid : ct -> bool) (s : sm) (o : smop) : sm :=
   match o with
   | Add c i => sm_add valid s c i
   | Remove c i => sm_remove s c i
   end.
-Definition sm_run (valid : N -> bool) (h : list smop) : sm := fold_left (sm_step valid) h sm_init.
+Definition sm_run (valid : ct -> bool) (h : list smop) : sm := fold_left (sm_step valid) h sm_init.
 
 (* "c has a cron entry": some registered cron entry sends c when it fires *)
-Definition cron_count (c : N) (s : sm) : nat :=
-  length (filter (fun e => N.eqb (snd e) c) (cron s)).
+Definition cron_count (c : ct) (s : sm) : nat :=
+  length (filter (fun e => ct_eqb (snd e) c) (cron s)).
 
 (* ------------------------------------------------------------------ controller *)
 
 (* htypes.ScheduleConfig *)
 Record binding := mkB {
-  b_id : N; b_crontab : N; b_name : N; b_group : N; b_af : bool; b_snaps : list N; b_queue : N }.
+  b_id : N; b_crontab : ct; b_name : N; b_group : N; b_af : bool; b_snaps : list N; b_queue : N }.
 (* ScheduleBindingToCrontabLink *)
 Record link := mkLink {
-  l_name : N; l_crontab : N; l_snaps : list N; l_af : bool; l_queue : N; l_group : N }.
+  l_name : N; l_crontab : ct; l_snaps : list N; l_af : bool; l_queue : N; l_group : N }.
 (* BindingExecutionInfo together with its single BindingContext
    (Binding, Metadata.BindingType = Schedule, Metadata.IncludeSnapshots, Metadata.Group) *)
 Record info := mkInfo {
@@ -114,7 +128,7 @@ Definition map_del (k : N) (m : links) : links :=
   filter (fun p => negb (N.eqb (fst p) k)) m.
 
 (* EnableScheduleBindings: for each config { links[id] = link; scheduleManager.Add(entry) } *)
-Definition enable (valid : N -> bool) (bs : list binding) (st : links * sm) : links * sm :=
+Definition enable (valid : ct -> bool) (bs : list binding) (st : links * sm) : links * sm :=
   fold_left (fun st b => (map_set (b_id b) (link_of b) (fst st),
                           sm_add valid (snd st) (b_crontab b) (b_id b))) bs st.
 (* DisableScheduleBindings: for each config { scheduleManager.Remove(entry); delete(links, id) } *)
@@ -122,10 +136,11 @@ Definition disable (bs : list binding) (st : links * sm) : links * sm :=
   fold_left (fun st b => (map_del (b_id b) (fst st),
                           sm_remove (snd st) (b_crontab b) (b_id b))) bs st.
 
-Definition can_handle (c : N) (m : links) : bool :=
-  existsb (fun p => N.eqb (l_crontab (snd p)) c) m.
-Definition handle_event (c : N) (m : links) : list info :=
-  map (fun p => info_of_link (snd p)) (filter (fun p => N.eqb (l_crontab (snd p)) c) m).
+(* CanHandleEvent / HandleEvent: link.Crontab == crontab, on the strings *)
+Definition can_handle (c : ct) (m : links) : bool :=
+  existsb (fun p => ct_eqb (l_crontab (snd p)) c) m.
+Definition handle_event (c : ct) (m : links) : list info :=
+  map (fun p => info_of_link (snd p)) (filter (fun p => ct_eqb (l_crontab (snd p)) c) m).
 
 (* operator.go:171-183: the task made from one info for hook [h]:
    HookRun task, metadata {HookName, BindingType Schedule, BindingContext, AllowFailure,
@@ -139,19 +154,22 @@ Definition task_of_info (h : N) (x : info) : stask :=
 (* ------------------------------------------------------------------ the whole: hooks sharing one manager *)
 
 Inductive op :=
-| OAdd (c i : N)          (* scheduleManager.Add directly *)
-| ORemove (c i : N)       (* scheduleManager.Remove directly *)
+| OAdd (c : ct) (i : N)   (* scheduleManager.Add directly *)
+| ORemove (c : ct) (i : N)(* scheduleManager.Remove directly *)
 | OEnable (h : N)         (* hook h's controller: EnableScheduleBindings *)
 | ODisable (h : N)        (* hook h's controller: DisableScheduleBindings *)
-| OFire (c : N).          (* crontab c fires: every controller is asked CanHandleEvent / HandleEvent *)
+| OFire (c : ct)          (* the string c arrives as a firing: every controller is asked CanHandleEvent / HandleEvent *)
+| OTick (n : N)           (* the n-th registered cron entry (from 0) fires: its job runs, what it sends is dispatched *)
+| OTickAll.               (* every registered cron entry fires once, in the cron library's order *)
 
 (* [i_hooks]: the schedule bindings of each hook (hook h = position h, from 0);
-   [i_invalid]: crontab numbers whose string cron.Parse rejects;
-   [i_alphabet]: the crontabs looked at in the observations *)
+   [i_invalid]: the crontab strings cron.Parse rejects (oracle: the real parser, asked by the harness);
+   [i_alphabet]: the crontab strings looked at in the observations *)
 Record input := mkIn {
-  i_hooks : list (list binding); i_invalid : list N; i_alphabet : list N; i_ops : list op }.
+  i_hooks : list (list binding); i_invalid : list ct; i_alphabet : list ct; i_ops : list op }.
 
-Definition valid_of (inv : list N) (c : N) : bool := negb (mem_N c inv).
+Definition mem_ct (c : ct) (l : list ct) : bool := existsb (ct_eqb c) l.
+Definition valid_of (inv : list ct) (c : ct) : bool := negb (mem_ct c inv).
 
 Record sys := mkSys { s_links : list links; s_sm : sm }.
 
@@ -164,10 +182,22 @@ Fixpoint set_nth {A} (n : nat) (x : A) (l : list A) : list A :=
 
 (* what is looked at after every operation *)
 Record obs := mkObs {
-  o_entries : list (N * option (N * list N));   (* for c in alphabet: Entries[c] = (EntryID, ids) *)
-  o_cron : list (N * N);                        (* cron entries: (EntryID, crontab sent) *)
-  o_fire : list (bool * list info)              (* OFire only: per hook CanHandleEvent, HandleEvent *)
+  o_entries : list (ct * option (N * list N));  (* for c in alphabet: Entries[c] = (EntryID, ids) *)
+  o_cron : list (N * ct);                       (* cron entries: (EntryID, crontab string sent) *)
+  o_fire : list (bool * list info)              (* OFire / OTick / OTickAll: per hook CanHandleEvent, HandleEvent *)
 }.
+
+(* hook_manager.go:304-316 HandleScheduleEvent(crontab): for every hook,
+   if CanHandleScheduleEvent(crontab) { HandleScheduleEvent(crontab, createTask) } *)
+Definition dispatch_hook (c : ct) (m : links) : bool * list info :=
+  (can_handle c m, if can_handle c m then handle_event c m else []).
+Definition dispatch (c : ct) (ls : list links) : list (bool * list info) := map (dispatch_hook c) ls.
+(* the strings [cs] arrive one after the other; per hook: was any of them handled, and
+   all the execution infos in order of arrival *)
+Definition tick_hook (cs : list ct) (m : links) : bool * list info :=
+  (existsb (fun c => can_handle c m) cs,
+   flat_map (fun c => snd (dispatch_hook c m)) cs).
+Definition tick_all (cs : list ct) (ls : list links) : list (bool * list info) := map (tick_hook cs) ls.
 
 Definition sys_step (i : input) (s : sys) (o : op) : sys * list (bool * list info) :=
   let valid := valid_of (i_invalid i) in
@@ -183,6 +213,12 @@ Definition sys_step (i : input) (s : sys) (o : op) : sys * list (bool * list inf
       let '(m, s') := disable (nth n (i_hooks i) []) (nth n (s_links s) [], s_sm s) in
       (mkSys (set_nth n m (s_links s)) s', [])
   | OFire c => (s, map (fun m => (can_handle c m, handle_event c m)) (s_links s))
+  | OTick n =>
+      match nth_error (cron (s_sm s)) (N.to_nat n) with
+      | Some (_, c) => (s, dispatch c (s_links s))      (* the job sends c on ScheduleCh *)
+      | None => (s, [])
+      end
+  | OTickAll => (s, tick_all (map snd (cron (s_sm s))) (s_links s))
   end.
 
 Definition observe (i : input) (s : sys) (f : list (bool * list info)) : obs :=
